@@ -218,7 +218,7 @@ func c19Check(c *fw.Ctx, s c19Spec, pats []c19Pat) *fw.Violation {
 }
 
 func init() {
-	fw.Register(addTok(tokFramesC19, &fw.Prop{
+	register(addTok(tokFramesC19, &fw.Prop{
 		ID: "C19",
 		Rule: "19 subjects (scalars of every kind, unset, arrays of several lengths and nestings, an object) x all case lists of <= 2 cases with <= 2 alternatives each and all lists of 3 single-alternative cases over the pattern alphabet x 9 body kinds (a body that reads the name _, a block of one expression statement (null), a block left by continue / next, a block that creates new names -- gone afterwards, expression using the bound names, block with a trace, tracing call, a body that runs three further matches -- new name, array pattern, shadowing -- before using the names again, a body that calls matching / recursing functions); " +
 			"3 literals that cannot be evaluated (bad escape, 1.2.3) as a later case / alternative behind every pattern; every case list of <= 3 single-alternative cases is also run as ONE match site over the sequence of all subjects (forward and reversed); outer variables named like the pattern names exist, so leaking or clobbering a binding is visible; oracle: DESIGN.md 3.17 through the reference interpreter (selected case, bindings, value, and the trace shows that no later pattern or body ran); " +
